@@ -9,6 +9,7 @@ import CB.Props.C10
 import CB.Lemmas.GenBitsSafeGcd
 import CB.Lemmas.GenSafeGcdJump
 import CB.Lemmas.GenSafeGcdLimbs
+import CB.Lemmas.GenSafeGcdDivsteps
 namespace CB.P10G
 open CB CB.SafeGcd
 
@@ -201,6 +202,15 @@ theorem src_unsat_eq_select_exact (a b : List (BitVec 64)) (h : a.length = b.len
   · rw [← GenSafeGcdLimbs.uselect_bridge a b p h]; rfl
 
 open CB.GenChains (nats) in
+open CB.GenSafeGcdLimbs (WFw) in
+/-- `UnsatInt::leading_zeros` / `UnsatInt::bits` of the source (the inputs of `iterations` in `divsteps`) are the model's `ulz` /
+    `ubits` for every limb count whose bit length `62·LIMBS` fits the `u32` arithmetic of the source -/
+theorem src_unsat_bits_exact (a : List (BitVec 64)) (wa : WFw a) (hL : 62 * a.length < 2 ^ 32) :
+    (Gen.SafeGcdLimbs.UnsatInt.leading_zeros a.length a).toNat = ulz (nats a) ∧
+    (Gen.SafeGcdLimbs.UnsatInt.bits a.length a).toNat = ubits (nats a) :=
+  GenSafeGcdLimbs.ulz_bridge a wa hL
+
+open CB.GenChains (nats) in
 open CB.GenSafeGcdLimbs (WFw matOf) in
 /-- `fg` of the source: T10.4(d) `fg_exact` restated for the translated function — for well-formed `n ≥ 2`-limb operands, a
     matrix whose rows have absolute sum `≤ 2^62` and `T·(F, G)` within the signed range of the limbs, the words the SOURCE
@@ -275,7 +285,8 @@ open CB.GenChains (nats) in
 open CB.GenSafeGcdLimbs (WFw matOf) in
 /-- the hand-written models of the LIMB arithmetic of safegcd (what T10.4(d) and the loop theorems are proved about) ARE
     the translated source, for every limb count: `add`, `neg`, `mul` (multiplier `≠ i64::MIN`), `shr` (`LIMBS ≥ 1`),
-    `is_negative`, `lowest`, `eq`, `select` of `UnsatInt`, and `fg`, `de` (rows of the matrix of absolute sum `≤ 2^62`) -/
+    `is_negative`, `lowest`, `eq`, `select` of `UnsatInt`, and `fg`, `de` (rows of the matrix of absolute sum `≤ 2^62`);
+    `leading_zeros` / `bits`: `src_unsat_bits_exact` -/
 theorem safegcd_limbs_are_translated_source :
     (∀ a b : List (BitVec 64), a.length = b.length → WFw a → WFw b →
       uadd (nats a) (nats b) = nats (Gen.SafeGcdLimbs.UnsatInt.add a.length a b)) ∧
@@ -301,6 +312,52 @@ theorem safegcd_limbs_are_translated_source :
   ⟨GenSafeGcdLimbs.uadd_bridge, GenSafeGcdLimbs.uneg_bridge, GenSafeGcdLimbs.umul_bridge, GenSafeGcdLimbs.ushr_bridge,
     GenSafeGcdLimbs.uisNeg_bridge, GenSafeGcdLimbs.ulowest_bridge, GenSafeGcdLimbs.ueq_bridge, GenSafeGcdLimbs.uselect_bridge,
     GenSafeGcdLimbs.fg_bridge, GenSafeGcdLimbs.de_bridge⟩
+
+open CB.GenChains (nats) in
+open CB.GenSafeGcdLimbs (WFw dsOf) in
+/-- `divsteps` of the source (the outer loop `while i < iterations(f_0.bits(), g.bits())`: `jump`, `fg`, `de` per trip) IS the
+    model's `divsteps` for every limb count `2 ≤ LIMBS ≤ 1413748` (where the `u32` bit counts do not wrap), on every initial
+    state that satisfies the loop invariants of T10.5 (`FGI`: `f_0`, `g` well formed within `Bd`, `f_0` odd; `DEI`: `d = 0`,
+    `e ∈ (-2M, M)` well formed) — what `SafeGcdInverter::inv` and `gcd` establish before the call; `jump` moves `delta` by at
+    most 62 per trip (`jump_delta_bound`), so no `i64` of the loop wraps within the `< 2^32` trips.
+    Hence `FGI` / `DEI` hold for the words the SOURCE returns (T10.5 `dsLoop_inv` restated). -/
+theorem src_divsteps_exact (Bd : Int) (gs : Nat) (x adj : Int) (e f0 g : List (BitVec 64)) (inv : BitVec 64)
+    (hn : 2 ≤ f0.length) (hL : f0.length ≤ 1413748) (hcap : 2 ^ 64 * Bd ≤ ((Q ^ f0.length : Nat) : Int))
+    (w0 : WFw f0) (hM : 0 < uval (nats f0)) (hModd : uval (nats f0) % 2 = 1) (hMB : uval (nats f0) ≤ Bd)
+    (hinv : inv.toInt * uval (nats f0) ≡ 1 [ZMOD 2 ^ 62])
+    (hfg : FGI f0.length Bd gs (dsOf e g (List.replicate f0.length 0#64) f0 1#64))
+    (hde : DEI f0.length (nats f0) x adj (dsOf e g (List.replicate f0.length 0#64) f0 1#64)) :
+    (nats (Gen.SafeGcdLimbs.divsteps f0.length e f0 g inv).1, nats (Gen.SafeGcdLimbs.divsteps f0.length e f0 g inv).2) =
+      ((divsteps false (nats e) (nats f0) (nats g) inv.toInt).d, (divsteps false (nats e) (nats f0) (nats g) inv.toInt).f) ∧
+    (Gen.SafeGcd.iterations (Gen.SafeGcdLimbs.UnsatInt.bits f0.length f0) (Gen.SafeGcdLimbs.UnsatInt.bits f0.length g)).toNat =
+      iterations (ubits (nats f0)) (ubits (nats g)) ∧
+    WFw (Gen.SafeGcdLimbs.divsteps f0.length e f0 g inv).1 ∧ WFw (Gen.SafeGcdLimbs.divsteps f0.length e f0 g inv).2 ∧
+    -(2 * uval (nats f0)) < uval (nats (Gen.SafeGcdLimbs.divsteps f0.length e f0 g inv).1) ∧
+    uval (nats (Gen.SafeGcdLimbs.divsteps f0.length e f0 g inv).1) < uval (nats f0) ∧
+    uval (nats (Gen.SafeGcdLimbs.divsteps f0.length e f0 g inv).2) % 2 = 1 ∧
+    uval (nats (Gen.SafeGcdLimbs.divsteps f0.length e f0 g inv).1) * x ≡
+      uval (nats (Gen.SafeGcdLimbs.divsteps f0.length e f0 g inv).2) * adj [ZMOD uval (nats f0)] := by
+  have hb := GenSafeGcdLimbs.divsteps_bridge Bd gs x adj e f0 g inv hn hL hcap w0 hM hModd hMB hinv hfg hde
+  have lg : g.length = f0.length := by have := hfg.lg; simpa [dsOf, nats] using this
+  have htr := GenSafeGcdLimbs.trips_bridge f0 g w0 ((GenSafeGcdLimbs.WFw_iff g).mpr hfg.wg) lg hL
+  have h1 : (1#64 : BitVec 64).toInt = 1 := by decide
+  have hinit : dsOf e g (List.replicate f0.length 0#64) f0 1#64 = ⟨1, nats f0, nats g, SafeGcd.uzero (nats f0).length, nats e⟩ := by
+    simp [dsOf, h1, SafeGcd.uzero, nats]
+  obtain ⟨i1, i2⟩ := dsLoop_inv f0.length Bd gs hn hcap (nats f0) inv.toInt x adj ((GenSafeGcdLimbs.WFw_iff f0).mp w0)
+    (by simp [nats]) hM hModd hMB hinv (iterations (ubits (nats f0)) (ubits (nats g))) _ hfg hde
+  rw [hinit] at i1 i2
+  have hd : (divsteps false (nats e) (nats f0) (nats g) inv.toInt) =
+      dsLoop (nats f0) inv.toInt (iterations (ubits (nats f0)) (ubits (nats g))) ⟨1, nats f0, nats g, SafeGcd.uzero (nats f0).length, nats e⟩ := by
+    simp [divsteps]
+  rw [← hd] at i1 i2
+  have e1 := congrArg Prod.fst hb
+  have e2 := congrArg Prod.snd hb
+  simp only at e1 e2
+  refine ⟨hb, htr, (GenSafeGcdLimbs.WFw_iff _).mpr (e1 ▸ i2.wd), (GenSafeGcdLimbs.WFw_iff _).mpr (e2 ▸ i1.wf), ?_, ?_, ?_, ?_⟩
+  · rw [e1]; exact i2.d1
+  · rw [e1]; exact i2.d2
+  · rw [e2]; exact i1.odd
+  · rw [e1, e2]; exact i2.cd
 
 /-- non-vacuity: the translated source on three 62-bit limbs — `7 + (−9) = −2`, `(−9)·(−3) = 27`, `−(−9) = 9`,
     `(−9·2^62) >> 62 = −9`, and one `fg` step with the matrix `[[1, 0], [−1, 1]]` on `f = 7·2^62`, `g = 12·2^62`: `(7, 5)` -/
